@@ -161,3 +161,10 @@ def run(prog: Program, rep: Report, tier: str = "quick") -> None:
     n = len(roles)
     rep.floor("R8.1", 35 * n)
     rep.floor("R8.2", 5 * n)
+    from . import game
+
+    game.add_instances(rep, game.returns_job, [(i, tier, "R8.3") for i in range(n)], "R8.3", 70 * n)
+    import re as _re
+
+    rep.arbitrate({"R8.1"}, "R8.3", "valid games return normally",
+                  pred=lambda i: " returns normally (" in i.construct and _re.search(r"may raise (IndexError|KeyError|AttributeError|TypeError|StopIteration|AssertionError)", i.message) is not None)
